@@ -47,7 +47,8 @@ def mk_basis(s):
 def first_principles(s, sym):
     """local matrix written out in NumPy, or None when the symbol is left to a fresh op_mat"""
     if s[0] == "spin":
-        m = {"sigma_x": [[0, 1], [1, 0]], "sigma_z": [[1, 0], [0, -1]], "sigma_+": [[0, 1], [0, 0]], "sigma_-": [[0, 0], [1, 0]]}
+        m = {"sigma_x": [[0, 1], [1, 0]], "sigma_z": [[1, 0], [0, -1]], "sigma_+": [[0, 1], [0, 0]], "sigma_-": [[0, 0], [1, 0]],
+             "iY": [[0, 1], [-1, 0]], "X": [[0, 1], [1, 0]], "Z": [[1, 0], [0, -1]], "+": [[0, 1], [0, 0]], "-": [[0, 0], [1, 0]]}
         out = np.eye(2)
         for t in sym.split(" "):
             if t not in m:
@@ -115,7 +116,8 @@ def build_tree(spec, bl):
 
 
 def relerr(a, b):
-    return float(np.abs(np.asarray(a) - b).max() / max(1.0, np.abs(b).max()))
+    sc = float(np.abs(b).max())
+    return float(np.abs(np.asarray(a) - b).max() / (sc if sc > 0 else 1.0))
 
 
 def build(step, with_mpo=True):
@@ -235,8 +237,31 @@ def run_scale(case):
     return {"id": case["id"], "fails": fails, "n": 4, "worst": max(e_ref, e_twin, e_mpo)}
 
 
+def run_alphabet(case):
+    """LARGE ALPHABET: hundreds of distinct elementary operator words per DoF (primary-operator indices beyond 255, row
+    tuples whose packed codes exceed 65535), nodes with several basis sets / children, hundreds of terms -- against the
+    dense sum of krons with exactly merged coefficients.  "terms" are compressed: [[ [word, dof], ... ], num, exp]."""
+    step = {"basis": case["basis"], "tree": case["tree"], "algo": case["algo"],
+            "terms": [{"ops": [[w, d] for w, d in t[0]], "num": t[1], "exp": t[2]} for t in case["terms"]]}
+    fails = []
+    try:
+        ref = reference(step)
+        bl, ttno, _ = build(step, with_mpo=False)
+        d = ttno.todense(bl)
+        err = relerr(d, ref) if np.abs(ref).max() > 0 else float(np.abs(d).max())
+        nprim = sum(len(set(w for t in step["terms"] for w, dd in t["ops"] if dd == s[1])) for s in step["basis"])
+    except Exception as e:
+        return {"id": case["id"], "fails": [{"what": "raised", "error": "%s: %s" % (type(e).__name__, e), "algo": case["algo"]}], "n": 1, "worst": 0.0}
+    tol = 1e-8 if case["algo"] == "qr" else 1e-9
+    if not err <= tol:
+        fails.append({"what": "TTNO over a large operator alphabet differs from the dense sum of krons", "err": err, "algo": case["algo"],
+                      "n_terms": len(step["terms"]), "distinct_words": nprim})
+    return {"id": case["id"], "fails": fails, "n": 1, "worst": err, "distinct_words": nprim}
+
+
 def run_payload(payload):
-    return {"sequences": [run_sequence(s) for s in payload.get("sequences", [])],
+    return {"alphabets": [run_alphabet(c) for c in payload.get("alphabets", [])],
+            "sequences": [run_sequence(s) for s in payload.get("sequences", [])],
             "scales": [run_scale(c) for c in payload.get("scales", [])]}
 
 
